@@ -79,9 +79,14 @@ func buildSecurityCaller(xfccHeader string) (*security.Caller, error) {
 }
 
 func isTrustedAddress(addr string, trustedCidrs []string) bool {
-	ip, _, err := net.SplitHostPort(addr)
+	host, _, err := net.SplitHostPort(addr)
 	if err != nil {
 		log.Warnf("peer address %s can not be split in to proper host and port", addr)
+		return false
+	}
+	ip, err := netip.ParseAddr(host)
+	if err != nil {
+		log.Warnf("peer address %s does not have an IP address as host", addr)
 		return false
 	}
 	for _, cidr := range trustedCidrs {
@@ -90,17 +95,17 @@ func isTrustedAddress(addr string, trustedCidrs []string) bool {
 		}
 	}
 	// Always trust local host addresses.
-	return netip.MustParseAddr(ip).IsLoopback()
+	return ip.IsLoopback()
 }
 
-func isInRange(addr, cidr string) bool {
+func isInRange(addr netip.Addr, cidr string) bool {
 	if strings.Contains(cidr, "/") {
 		ipp, err := netip.ParsePrefix(cidr)
 		if err != nil {
 			return false
 		}
 
-		return ipp.Contains(netip.MustParseAddr(addr))
+		return ipp.Contains(addr)
 	}
 	return false
 }
